@@ -230,3 +230,60 @@ func Harness_C15_TablesEnumsAliases() {
 	}
 	nd.Assert("tables:nothing-else-drawn", sum == cnt)
 }
+
+// per-application diagrams (%(epname) in the output name): exactly the types of the selected
+// application — including a tuple nested in another ("Order.shipping") — each with its
+// fields; whole-module diagrams: the types of every application
+func Harness_C15_PerApplication() {
+	perApp := nd.Bool("one-diagram-per-application")
+	nested := nd.Bool("type-nested-in-T0")
+	pick := []string{"App", "Other"}[nd.IntRange("selected-application", 0, 1)]
+	prim := func() *sysl.Type { return c15Field(0, "") }
+	tuple := func(attrs map[string]*sysl.Type) *sysl.Type {
+		return &sysl.Type{Type: &sysl.Type_Tuple_{Tuple: &sysl.Type_Tuple{AttrDefs: attrs}}}
+	}
+	appTypes := map[string]*sysl.Type{
+		"T0": tuple(map[string]*sysl.Type{"a": prim()}),
+		"T1": tuple(map[string]*sysl.Type{"r": c15Field(2, "T0")}),
+	}
+	if nested {
+		appTypes["T0.inner"] = tuple(map[string]*sysl.Type{"n": prim(), "back": c15Field(2, "T1")})
+	}
+	mod := &sysl.Module{Apps: map[string]*sysl.Application{
+		"App":   {Name: &sysl.AppName{Part: []string{"App"}}, Types: appTypes},
+		"Other": {Name: &sysl.AppName{Part: []string{"Other"}}, Types: map[string]*sysl.Type{"X": tuple(map[string]*sysl.Type{"x": prim()})}},
+	}}
+	var sb strings.Builder
+	v := MakeDataModelView(c15Labeler{}, mod, &sb, "t", "p")
+	out := ""
+	failed, _ := nd.Recovered(func() {
+		out = v.GenerateDataView(&DataModelParam{Mod: mod, App: mod.Apps[pick], Title: "t", Epname: perApp})
+	})
+	nd.Assert("no-crash", !failed)
+	if failed {
+		return
+	}
+	p := c15Parse(out)
+	want := map[string]int{} // class -> number of fields
+	if !perApp || pick == "App" {
+		want["App.T0"], want["App.T1"] = 1, 1
+		if nested {
+			want["App.T0.inner"] = 2
+		}
+	}
+	if !perApp || pick == "Other" {
+		want["Other.X"] = 1
+	}
+	nd.Assert("per-application:exactly-the-classes-of-the-selection", !p.bad && len(p.classes) == len(want))
+	for name, nf := range want {
+		_, ok := p.classes[name]
+		nd.Assert("per-application:every-type-has-a-class", ok)
+		nd.Assert("per-application:every-field-listed", len(p.fields[name]) == nf)
+	}
+	if _, ok := want["App.T1"]; ok {
+		nd.Assert("per-application:relationship-line", p.edges[p.classes["App.T1"]+">"+p.classes["App.T0"]] == 1)
+		if nested {
+			nd.Assert("per-application:relationship-line-from-nested-type", p.edges[p.classes["App.T0.inner"]+">"+p.classes["App.T1"]] == 1)
+		}
+	}
+}
